@@ -43,6 +43,15 @@ func linkedIPHandler(
 		r.SetURL(apiURL)
 		r.Out.Host = apiURL.Host
 
+		// Set the real IP of the client on the outgoing request here as well,
+		// since the reverse proxy removes the headers that the client has named
+		// in its Connection header after the handler has set them and before
+		// calling this function.
+		ip, err := netutil.SplitHost(r.In.RemoteAddr)
+		if err == nil {
+			r.Out.Header.Set(httphdr.XConnectingIP, ip)
+		}
+
 		// Make sure that all requests are marked with our user agent.
 		r.Out.Header.Set(httphdr.UserAgent, agdhttp.UserAgent())
 	}
